@@ -134,6 +134,7 @@ type Row struct {
 	Cols []string
 	Vals []Val
 	At   int64 // logical insertion time: NOW() of the statement
+	Node int   // the node whose local table holds the row (see Catalogue.Node)
 }
 
 func (r Row) Get(col string) (Val, bool) {
@@ -151,6 +152,10 @@ type Catalogue struct {
 	DBs   map[string]map[string]*Object
 	Data  map[string][]Row // "db.table" -> rows
 	Clock int64
+	// Node: the cluster node the current connection goes to. Table definitions are shared by all nodes (DDL runs
+	// ON CLUSTER); the rows of `ver` are local: an INSERT stores them on this node, a read of the table itself sees
+	// only this node's rows, a read through a Distributed table sees the rows of all nodes.
+	Node int
 }
 
 func New(dbs ...string) *Catalogue {
@@ -163,7 +168,7 @@ func New(dbs ...string) *Catalogue {
 
 // Clone returns an independent copy (objects are shared, they are immutable).
 func (c *Catalogue) Clone() *Catalogue {
-	n := &Catalogue{DBs: make(map[string]map[string]*Object, len(c.DBs)), Data: make(map[string][]Row, len(c.Data)), Clock: c.Clock}
+	n := &Catalogue{DBs: make(map[string]map[string]*Object, len(c.DBs)), Data: make(map[string][]Row, len(c.Data)), Clock: c.Clock, Node: c.Node}
 	for d, m := range c.DBs {
 		nm := make(map[string]*Object, len(m))
 		for k, v := range m {
@@ -213,6 +218,32 @@ func (c *Catalogue) resolveData(q QName) (QName, *Exception) {
 	return q, exc(36, "BAD_ARGUMENTS", "Distributed chain too deep")
 }
 
+// qualSame returns t itself when resolving it led to no other table (t is read directly, not through a
+// Distributed table), and a different name otherwise.
+func (c *Catalogue) qualSame(t, resolved QName) QName {
+	if t.Name == resolved.Name && (t.DB == resolved.DB || t.DB == "") {
+		return resolved
+	}
+	return QName{"", ""}
+}
+
+// VerMaxAllNodes is what the version table records for key k over the whole cluster (for oracles; the code under
+// test reads through its connection).
+func (c *Catalogue) VerMaxAllNodes(t QName, k string) (uint64, *Exception) {
+	var mx uint64
+	save := c.Node
+	defer func() { c.Node = save }()
+	for n := 0; n < 2; n++ {
+		c.Node = n
+		v, e := c.VerMax(t, k)
+		if e != nil {
+			return 0, e
+		}
+		mx = max(mx, v)
+	}
+	return mx, nil
+}
+
 // VerMax implements `SELECT max(ver) FROM <t> WHERE k = <k>` (ReplacingMergeTree(ver):
 // the maximum is invariant under merges). Empty set → 0, as ClickHouse's max over no rows.
 func (c *Catalogue) VerMax(t QName, k string) (uint64, *Exception) {
@@ -221,7 +252,11 @@ func (c *Catalogue) VerMax(t QName, k string) (uint64, *Exception) {
 		return 0, e
 	}
 	var mx uint64
+	local := q == c.qualSame(t, q)
 	for _, r := range c.Data[q.String()] {
+		if local && r.Node != c.Node {
+			continue
+		}
 		kv, _ := r.Get("k")
 		vv, _ := r.Get("ver")
 		if kv.Text != k {
@@ -245,7 +280,11 @@ func (c *Catalogue) VerAll(t QName) ([][2]uint64, *Exception) {
 		return nil, e
 	}
 	mx := map[uint64]uint64{}
+	local := q == c.qualSame(t, q)
 	for _, r := range c.Data[q.String()] {
+		if local && r.Node != c.Node {
+			continue
+		}
 		kv, _ := r.Get("k")
 		vv, _ := r.Get("ver")
 		k, err1 := strconv.ParseUint(kv.Text, 10, 64)
@@ -652,7 +691,7 @@ func (c *Catalogue) Apply(s *Stmt, defDB string) error {
 					}
 				}
 			}
-			c.Data[tq.String()] = append(c.Data[tq.String()], Row{Cols: s.Cols, Vals: r, At: c.Clock})
+			c.Data[tq.String()] = append(c.Data[tq.String()], Row{Cols: s.Cols, Vals: r, At: c.Clock, Node: c.Node})
 		}
 		return nil
 	}
